@@ -43,7 +43,9 @@ def run_program(chk, da, prog, sources, budget=20):
     chk.case(("prog", progs.show(prog), repr([(s[0].shape, s[1]) for s in sources])), nontrivial=len(progs.all_nodes(prog)) > 1,
              sample=desc if len(progs.all_nodes(prog)) <= 5 else None)
     nodes = progs.all_nodes(prog)
-    feats = {"swv_reduction": any(q[0] == "swv" and q[4] is not None for q in nodes), "root_op": prog[0]}
+    leaves = [repr(q) for q in progs.all_leaf_uses(prog)]
+    feats = {"swv_reduction": any(q[0] == "swv" and q[4] is not None for q in nodes), "root_op": prog[0],
+             "shared_leaf": len(leaves) != len(set(leaves)) or any(q[0] in ("diff", "where", "roll", "map_overlap", "cum", "setitem", "where_out") for q in nodes)}
     old = signal.signal(signal.SIGALRM, _alarm)
     signal.alarm(budget)
     try:
@@ -118,3 +120,43 @@ def run(chk: Check):
     for _ in range(n // 4):
         prog, sources, want = towers(chk.rng)
         run_program(chk, da, prog, sources)
+    # nested-chunk unification above view-like nodes: the operand's partner is chunked as a coarsening / refinement of what
+    # the operand advertises, so lowering inserts a (lowered) rechunk directly above transposes, slices, flips ...
+    for prog, sources, want in progs.gen_programs(chk.rng, n // 2, ops=["T", "T", "slice", "flip", "expand", "elem1", "rechunk", "concat"], depth_choices=(1, 2)):
+        if not np.ndim(want) or 0 in np.shape(want):
+            continue
+        try:
+            with warnings.catch_warnings():
+                warnings.simplefilter("ignore")
+                ch = progs.build(prog, da, sources, memo={}).chunks
+        except Exception:  # noqa: BLE001
+            continue
+        new = []
+        for c in ch:
+            if any(isinstance(x, float) for x in c):
+                new = None
+                break
+            if chk.rng.random() < 0.6 and len(c) > 1:      # coarsen: merge adjacent blocks
+                out, acc = [], 0
+                for x in c:
+                    acc += x
+                    if chk.rng.random() < 0.5:
+                        out.append(acc)
+                        acc = 0
+                if acc:
+                    out.append(acc)
+                new.append(tuple(out))
+            else:
+                new.append(tuple(c))
+        if new is None:
+            continue
+        sources = list(sources) + [((np.arange(int(np.prod(np.shape(want))), dtype="int64").reshape(np.shape(want)) % 9) - 4, tuple(new))]
+        run_program(chk, da, ("elem", "add", prog, ("src", len(sources) - 1)), sources)
+    # empty and degenerate selections on top of every kind of root (pushdowns meet empty inputs)
+    for prog, sources, want in progs.gen_programs(chk.rng, n // 2, ops=progs.CORE_OPS, depth_choices=(1, 2, 3)):
+        if not np.ndim(want):
+            continue
+        ax = chk.rng.randrange(np.ndim(want))
+        k = chk.rng.randint(0, np.shape(want)[ax])
+        idx = tuple(slice(k, k) if a == ax else slice(None) for a in range(np.ndim(want)))[: ax + 1]
+        run_program(chk, da, ("slice", prog, idx), sources)
